@@ -48,7 +48,9 @@ func (node *FileNode) ResolveEntrypoint(entrypoint string) (string, error) {
 	if strings.Contains(entrypoint, "://") {
 		return entrypoint, nil
 	}
-	if strings.HasPrefix(entrypoint, "git") {
+	// (a git reference without "://", like git@host:org/repo.git//Taskfile.yml,
+	// not every name that happens to start with "git")
+	if scheme, err := getScheme(entrypoint); err == nil && scheme == "git" {
 		return entrypoint, nil
 	}
 
